@@ -15,6 +15,30 @@ class ContractError(Exception):
     """contract refers to something that no longer exists (exit 2: contract-out-of-date)"""
 
 
+class DynamicLoops(dict):
+    """loop ordinal -> invariants computed from the *current* source by role (not by a fixed ordinal):
+    exempt from the loop-shape fingerprint"""
+
+
+def loop_shape(fn):
+    """pre-order sequence of the loops of a function with their nesting depth, e.g. 'F0 F1 W1 F0'
+    (nested function definitions and lambdas excluded).  Invariants are keyed by loop ordinal: if this
+    shape differs from the one the contract was written against, the contract is out of date."""
+    out = []
+
+    def walk(node, depth):
+        for ch in ast.iter_child_nodes(node):
+            if isinstance(ch, (ast.FunctionDef, ast.Lambda)):
+                continue
+            if isinstance(ch, (ast.For, ast.While)):
+                out.append(('F' if isinstance(ch, ast.For) else 'W') + str(depth))
+                walk(ch, depth + 1)
+            else:
+                walk(ch, depth)
+    walk(fn, 0)
+    return ' '.join(out)
+
+
 _MODULE_CACHE = {}
 
 
@@ -106,7 +130,7 @@ class Contract:
         self.must_raise = list(must_raise)
         self.mutates = list(mutates)
         self.returns_alias = returns_alias
-        self.loops = dict(loops or {})
+        self.loops = loops if isinstance(loops, DynamicLoops) else dict(loops or {})
         self.locals = dict(locals or {})
         self.mode = mode
         self.tracked = list(tracked)
